@@ -98,6 +98,15 @@ int main(int argc, char** argv)
     const int tier = (opt.count("tier") && opt["tier"] == "thorough") ? 1 : 0;
 
     if (cmd == "rule") { puts(ruleText(prop)); return 0; }
+    if (cmd == "decode") {
+        // turn a libFuzzer artifact (bytes) into the program it decodes to
+        if (pos.size() < 2) return 64;
+        std::string bytes = readFile(pos[1]);
+        ByteRand R((const uint8_t*) bytes.data(), bytes.size());
+        Program P = generate(prop, R, 0);
+        fputs(P.text().c_str(), stdout);
+        return 0;
+    }
     if (cmd == "show") {
         uint64_t idx = opt.count("index") ? strtoull(opt["index"].c_str(), nullptr, 10) : 0;
         uint64_t w = opt.count("worker") ? strtoull(opt["worker"].c_str(), nullptr, 10) : 0;
